@@ -458,4 +458,129 @@ theorem uinv_merge {values : List Nat} {pairs : List (Nat × Nat)} {u u' : UF} {
             cases h
             exact uinv_link i2 hx hy (Or.inr e2) (Or.inl e1) (Or.inr ⟨e1, e2⟩) (by omega)
 
+/-! ### histories -/
+
+theorem uinv_step {values : List Nat} {pairs : List (Nat × Nat)} {u : UF} (hi : UInv values pairs u)
+    (op : UOp) : UInv values (pairs ++ UF.mergedPairs u [op]) (u.step op).1 := by
+  cases op with
+  | merge x y =>
+    simp only [UF.step, UF.mergedPairs]
+    cases h : u.merge x y with
+    | none => simpa using hi
+    | some u' => exact uinv_merge hi h
+  | find x =>
+    simp only [UF.step, UF.mergedPairs, UF.find, List.append_nil]
+    cases h : u.findNode x with
+    | none => exact hi
+    | some r => obtain ⟨u', r⟩ := r; exact uinv_findNode hi h
+
+theorem uinv_exec {values : List Nat} {pairs : List (Nat × Nat)} {u : UF} (hi : UInv values pairs u)
+    (ops : List UOp) : UInv values (pairs ++ UF.mergedPairs u ops) (UF.exec u ops) := by
+  induction ops generalizing u pairs with
+  | nil => simpa [UF.mergedPairs, UF.exec] using hi
+  | cons op ops ih =>
+    have h1 := uinv_step hi op
+    have h2 := ih h1
+    cases op with
+    | merge x y =>
+      simp only [UF.step, UF.mergedPairs, UF.exec] at h1 h2 ⊢
+      cases h : u.merge x y with
+      | none => simpa [h] using h2
+      | some u' => simpa [h, List.append_assoc] using h2
+    | find x =>
+      simpa [UF.mergedPairs, UF.exec] using h2
+
+/-- the answer of `find` under the invariant -/
+theorem find_spec {values : List Nat} {pairs : List (Nat × Nat)} {u u' : UF} {x r : Nat}
+    (hi : UInv values pairs u) (h : u.find x = some (u', r)) :
+    x ∈ values ∧ r ∈ values ∧ r = u.root x ∧ Conn pairs x r ∧ (∀ y, y ∈ values → Conn pairs x y → r ≤ y) ∧
+      UInv values pairs u' := by
+  have hi' := uinv_findNode hi h
+  obtain ⟨kx, ex, hr, _, _, _, _, _⟩ := findNode_spec hi.parentLt h
+  have hx := (hi.keys x).mp kx
+  have hrk : r ∈ values := (hi.keys r).mp (by simp [rootOf_isRoot hr])
+  refine ⟨hx, hrk, ex, conn_rootOf hi.sound hr, ?_, hi'⟩
+  intro y hy hc
+  have := (conn_iff_root hi hx hy).mp hc
+  rw [ex, this]
+  exact rootOf_le hi.parentLt (root_spec hi.parentLt ((hi.keys y).mpr hy))
+
+theorem find_none_iff {values : List Nat} {pairs : List (Nat × Nat)} {u : UF} {x : Nat}
+    (hi : UInv values pairs u) : u.find x = none ↔ x ∉ values := by
+  rw [← hi.keys x]
+  unfold UF.find UF.findNode
+  cases u.parentOf x <;> simp
+
+/-! ### the fuel bound never cuts a loop short -/
+
+theorem cnt_setParent (u : UF) (v : Nat) (p : Option Nat) (w : Nat) : (u.setParent v p).cnt w = u.cnt w := by
+  obtain ⟨nodes⟩ := u
+  simp only [UF.cnt, UF.setParent, List.countP_map]
+  congr 1
+  funext e
+  simp only [Function.comp]
+  by_cases h : e.1 = v
+  · simp [h]
+  · have : (e.1 == v) = false := by simpa using h
+    simp [this]
+
+theorem rootFuel_stable {u : UF} (hpl : u.ParentLt) {v : Nat} (hk : u.parentOf v ≠ none) (fuel : Nat)
+    (hf : u.cnt v < fuel) : u.rootFuel fuel v = u.root v :=
+  rootOf_det (rootFuel_spec hpl fuel v hk hf) (root_spec hpl hk)
+
+theorem compressFuel_stable {u : UF} (hpl : u.ParentLt) {r v : Nat} (hv : u.RootOf v r) (fuel : Nat)
+    (hf : u.cnt v < fuel) : u.compressFuel r (fuel + 1) v = u.compressFuel r fuel v := by
+  induction fuel generalizing u v with
+  | zero => omega
+  | succ fuel ih =>
+    rw [UF.compressFuel]
+    conv => rhs; rw [UF.compressFuel]
+    cases hp : u.parentOf v with
+    | none => rfl
+    | some z =>
+      cases z with
+      | none => rfl
+      | some p =>
+        have hnr : v ≠ r := by
+          intro e; subst e
+          rw [rootOf_isRoot hv] at hp; cases hp
+        have hpr : u.RootOf p r := by
+          cases hv with
+          | root h => rw [h] at hp; cases hp
+          | step hs h => rw [hs] at hp; cases hp; exact h
+        have ⟨hlt, hkp⟩ := hpl v p hp
+        have := cnt_lt_cnt hlt hkp
+        exact ih (hang_parentLt hpl hv hnr) (hang_rootOf hv hnr hpr) (by rw [cnt_setParent]; omega)
+
+theorem compressFuel_stable' {u : UF} (hpl : u.ParentLt) {r v : Nat} (hv : u.RootOf v r) (k : Nat) :
+    u.compressFuel r (u.nodes.length + k) v = u.compressFuel r u.nodes.length v := by
+  induction k with
+  | zero => rfl
+  | succ k ih =>
+    rw [← ih, ← Nat.add_assoc]
+    exact compressFuel_stable hpl hv _ (by have := cnt_lt_length (rootOf_isKey hv); omega)
+
+theorem merge_parentLt {u u' : UF} {x y : Nat} (hpl : u.ParentLt) (h : u.merge x y = some u') :
+    u'.ParentLt := by
+  unfold UF.merge at h
+  split at h
+  · cases h
+  · split at h
+    · cases h
+    · rename_i u1 xr h1
+      split at h
+      · cases h
+      · rename_i u2 yr h2
+        obtain ⟨_, _, rx, _, pl1, rr1, _, _⟩ := findNode_spec hpl h1
+        obtain ⟨_, _, ry, _, pl2, rr2, _, _⟩ := findNode_spec pl1 h2
+        have kx : u2.parentOf xr = some none := rootOf_isRoot (rr2 _ _ (rr1 _ _ rx))
+        have ky : u2.parentOf yr = some none := rootOf_isRoot (rr2 _ _ ry)
+        split at h
+        · cases h; exact pl2
+        · split at h
+          · rename_i hlt; cases h
+            exact link_parentLt pl2 (by simp [ky]) (by simp [kx]) hlt
+          · cases h
+            exact link_parentLt pl2 (by simp [kx]) (by simp [ky]) (by omega)
+
 end WhVerif.C18
